@@ -289,7 +289,7 @@ GeneralizedTime_encode_xer(const asn_TYPE_descriptor_t *td, const void *sptr,
 		gt = asn_time2GT_frac(0, &tm, fv, fd, 1);
 		if(!gt) ASN__ENCODE_FAILED;
 	
-		rv = OCTET_STRING_encode_xer_utf8(td, sptr, ilevel, flags,
+		rv = OCTET_STRING_encode_xer_utf8(td, gt, ilevel, flags,
 			cb, app_key);
 		ASN_STRUCT_FREE(asn_DEF_GeneralizedTime, gt);
 		return rv;
